@@ -153,9 +153,19 @@ func ZZ_C28_history() {
 				vrt.Assert("poisoned_stays_poisoned", errors.Is(err, ErrAllocatorPoisoned))
 				continue
 			}
-			if blocks[bi].live {
+			// the pointer of a freed block may have been handed out again: freeing it then is a
+			// valid free of the block that owns it now, not a double free
+			owner := bi
+			if !blocks[bi].live {
+				for j := range blocks {
+					if blocks[j].live && blocks[j].ptr == blocks[bi].ptr { // pointers are concrete or forked on
+						owner = j
+					}
+				}
+			}
+			if blocks[owner].live {
 				vrt.Assert("valid_free_ok", err == nil)
-				blocks[bi].live = false
+				blocks[owner].live = false
 			} else {
 				vrt.Assert("double_free_rejected", err != nil)
 			}
